@@ -36,6 +36,11 @@ def step (_ : Unit) (j : Json) : Except String (Unit × Drv.Out) := do
       mo := mo'
       for f in fails do
         o := o.mon f.mon f.cls s!"step {idx}: {f.msg}"
+  -- the harness gave up on a step after ten seconds: the merged session no longer takes input or hands over output
+  if fldD j "stalled" == Json.bool true then
+    o := o.diff s!"the session stalled after step {idx}: a message could not be handed to / taken from the merged handler within 10 s"
+    for mon in ["stream", "eose", "ok", "count"] do
+      o := o.mon mon "stalled" s!"the merged session stopped responding after step {idx} of this trace (no progress within 10 s): pending requests are never answered"
   pure ((), o)
 
 def handler : Drv.Handler := { σ := Unit, init := (), step := step }
